@@ -212,6 +212,71 @@ def run(rep, tier):
                 else:
                     rep.ok("C19.R4", fn, "all %d enqueue sites are preceded by select_active_pu" % len(enq))
 
+    # select_active_pu itself: which PUs it may hand out.  A PU is accepted only with its pu mutex held and only
+    # while its state is below pre_sleep (the suspender moves the PU to pre_sleep under the same mutex - that
+    # exclusion is what makes the worker's final "my queues are empty" test valid); the threshold is raised only
+    # after a full round that found no acceptable PU at all.
+    RS = "pika::runtime_state"
+    rs = S.enums.get(RS) or F.enums.get(RS)
+    if not rs or "pre_sleep" not in rs:
+        raise AnalysisBroken("enum pika::runtime_state not found")
+    def rs_val(txt):
+        txt = txt.strip()
+        return rs.get(txt.rsplit("::", 1)[-1]) if txt.startswith(RS + "::") or txt.startswith("runtime_state::") else None
+    sel = S.find(r"^pika::threads::detail::scheduler_base::select_active_pu$")
+    if not sel:
+        raise AnalysisBroken("scheduler_base::select_active_pu not found")
+    sel = sel[0]
+    lams = [f for f in S.fns if f.parent == sel.id]
+    n_thr = 0
+    for f in [sel] + lams:
+        ff_ = FactFlow(f, eh=False)
+        # (a) every threshold the PU state is compared against starts below pre_sleep
+        for b, i, ev in f.all_events():
+            if ev.get("k") == "decl" and ev.get("var") == "max_allowed_state":
+                v = rs_val(T(ev["init"])) if ev.get("init") is not None else None
+                n_thr += 1
+                if v is not None and v < rs["pre_sleep"]:
+                    rep.ok("C19.R4", f, "select_active_pu: initial threshold %s is below pre_sleep" % T(ev["init"]))
+                else:
+                    rep.bad("C19.R4", f, loc_of(ev), "threshold-init", "select_active_pu starts with threshold %s: a PU that is already in pre_sleep (about to "
+                            "sleep, final queue check possibly done) is handed out although running PUs exist - work is stranded on a sleeping worker"
+                            % T(ev["init"]))
+        for b, blk in f.blocks.items():
+            if blk.cond is None:
+                continue
+            a, pol = cond_atoms(blk.cond)
+            m = re.match(r"^(pika::runtime_state::\w+) < this->states_\[.*\]\.runtime_state\(\)$", a)
+            if m:
+                n_thr += 1
+                if rs_val(m.group(1)) is not None and rs_val(m.group(1)) < rs["pre_sleep"]:
+                    rep.ok("C19.R4", f, "select_active_pu: fallback accepts states <= %s only" % m.group(1))
+                else:
+                    rep.bad("C19.R4", f, blk.term.get("loc", f.loc), "threshold-fallback", "select_active_pu accepts a PU in state > %s" % m.group(1))
+        # (b) the threshold is raised only when a full round found no acceptable PU
+        for b, i, ev in f.all_events():
+            if ev.get("k") == "write" and P(ev["lhs"]) == "max_allowed_state":
+                fb = ff_.before.get((b, i)) or frozenset()
+                if ("0 == num_allowed_threads", True) in fb or ("num_allowed_threads == 0", True) in fb:
+                    rep.ok("C19.R4", f, "threshold raised to %s only after a round without any acceptable PU" % T(ev["rhs"]))
+                else:
+                    rep.bad("C19.R4", f, loc_of(ev), "threshold-raise", "the accepted-state threshold is raised although acceptable PUs may exist")
+        # (c) a PU is chosen only with its mutex held and its state within the threshold
+        for b, i, ev in f.all_events():
+            chosen = (ev.get("k") == "write" and P(ev["lhs"]) == "num_thread" and "num_thread_local" in T(ev["rhs"])) or \
+                     (ev.get("k") == "return" and T(ev.get("e")) == "num_thread_local")
+            if chosen:
+                fb = ff_.before.get((b, i)) or frozenset()
+                owns = ("l.owns_lock()", True) in fb
+                within = any((not t) and re.search(r" < this->states_\[num_thread_local\]\.runtime_state\(\)$", a) for a, t in fb)
+                if owns and within:
+                    rep.ok("C19.R4", f, "PU chosen only with its mutex held and its state within the threshold")
+                else:
+                    rep.bad("C19.R4", f, loc_of(ev), "choose-unchecked", "select_active_pu hands out a PU without holding its mutex (%s) or without "
+                            "testing its state (%s)" % (owns, within))
+    if n_thr < 2:
+        raise AnalysisBroken("select_active_pu: thresholds not found (anchor moved)")
+
     # ---- R5
     for fn in inst("suspend_internal"):
         cas = [(b, i, ev) for b, i, ev in fn.all_events() if ev.get("k") == "call" and callee_short(ev).startswith("compare_exchange")]
